@@ -78,7 +78,9 @@ def generate(seed, run, tier):
     for _ in range(length):
         r = rs.random()
         if r < 0.12:
-            ops.append({'op': 'base', 'name': rs.choice(names), 'strength': rs.loguniform(1e-6, 10.0)})
+            ops.append({'op': 'base', 'name': rs.choice(names),
+                        'strength': rs.choice([0.0, -0.5, 1.0]) if rs.chance(0.2) else rs.loguniform(1e-6, 10.0),
+                        'as_tensor': rs.chance(0.3)})
             continue
         if r < 0.32:
             # the model's costs move (training progressed): multiply by a factor
@@ -246,6 +248,7 @@ def execute(case):
             targets[n] = torch.tensor(c0)
         else:
             targets[n] = torch.tensor(c0 * (1 + m['gap']))
+    targets0 = {n_: float(t_) for n_, t_ in targets.items()}
     if case['mode'] == 'given':
         given = tuple(torch.tensor(float(s)) for s in case['final_strengths'])
         reg = DUCCIO(targets, final_strengths=given)
@@ -364,12 +367,26 @@ def execute(case):
         steps += 1
         k = op['op']
         if k == 'base':
-            br = BaseRegularizer(cost_name=op['name'], strength=op['strength'])
-            got = float(br(model).detach())
-            ref = op['strength'] * cost_now(op['name'])
+            st = torch.tensor(float(op['strength'])) if op.get('as_tensor') else op['strength']
+            br = BaseRegularizer(cost_name=op['name'], strength=st)
+            c_before = cost_now(op['name'])
+            val_b = br(model)
+            got = float(val_b.detach())
+            ref = op['strength'] * c_before
+            if case['kind'] == 'stub' and val_b.requires_grad:
+                # the gradient with respect to the named cost is the strength
+                model.c[op['name']].grad = None
+                val_b.backward()
+                g_ = model.c[op['name']].grad
+                bump('base_regularizer_gradient_checks')
+                if g_ is None or not _close(float(g_), float(op['strength']), rtol=1e-5, atol=1e-12):
+                    fail('the gradient of BaseRegularizer with respect to the named cost is not the strength',
+                         'base:gradient', f'grad={None if g_ is None else float(g_)} strength={op["strength"]}')
+            if not _close(cost_now(op['name']), c_before, rtol=0, atol=0):
+                fail('BaseRegularizer changed the cost it read', 'base:side-effect', '')
             bump('base_regularizer_calls')
             events.append(f"{i} base {op['name']} x {op['strength']:.4g} -> {got:.6g}")
-            if not _close(got, ref, rtol=1e-5):
+            if not _close(got, ref, rtol=1e-5, atol=1e-30):
                 fail('BaseRegularizer is not strength x named cost', 'base:value', f'got={got} ref={ref}')
         elif k == 'move_cost':
             model.scale(op['name'], op['factor'])
@@ -426,6 +443,16 @@ def execute(case):
                 if v1 != v0:
                     fail('raising a cost that stays at or below target changes the penalty', 'duccio:changed-below-target',
                          f'metric={n} cost {before}->{after} target={t} value {v0}->{v1}')
+    # ---- the caller's own tensors must come back untouched ----------------------------------------
+    for n_, t0_ in targets0.items():
+        if float(targets[n_]) != t0_:
+            fail('DUCCIO modified the caller\'s target tensor', 'duccio:caller-tensor-modified',
+                 f'target {n_}: {t0_} -> {float(targets[n_])}')
+    if case['mode'] == 'given':
+        for s0_, st_ in zip(case['final_strengths'], given):
+            if not _close(float(st_), float(torch.tensor(float(s0_))), rtol=0, atol=0):
+                fail('DUCCIO modified the caller\'s final-strength tensor', 'duccio:caller-tensor-modified',
+                     f'strength {float(torch.tensor(float(s0_)))} -> {float(st_)}')
     # ---- history oracle ------------------------------------------------------------------------
     if precond and history:
         by_metric = {}
